@@ -22,7 +22,8 @@
 (***************************************************************************)
 EXTENDS Layout, Integers, TLC, Json, IOUtils
 
-CONSTANTS ExhaustiveLevels   \* operations are explored exhaustively from states below this level
+CONSTANTS ExhaustiveLevels,  \* every operation is explored from states up to this level
+          MaxLevel           \* beyond it, up to MaxLevel, only the "cheap" state-building operations
 
 VARIABLES gid, a, b, lvl, tr
 mvars == <<gid, a, b, lvl, tr>>
@@ -93,7 +94,7 @@ Op(path, op, j, i1, i2, i3, arg, args) ==
 NoneIdx == 99     \* "no bound" in a slice
 
 Idx(n) == {-(n + 1), -n, -1, 0, n - 1, n, n + 1}
-SliceBounds(n) == {0, 1, -1, NoneIdx}
+SliceBounds(n) == {1, -1, NoneIdx}
 
 ArgSeqs(t) ==    \* argument lists for extend / slice assignment
     LET g == CHOOSE x \in Good(t) : TRUE
@@ -350,11 +351,20 @@ MInit ==
     /\ lvl = 0
     /\ tr = NoTr
 
+\* operations that build up interesting states (used beyond the exhaustive levels)
+Cheap(op) ==
+    \/ op.op \in {"add", "extendother", "extendself"}
+    \/ op.op = "setopt" /\ op.arg \in {"true", "none"}
+    \/ op.op = "disc" /\ op.arg \in {"a1", "a2", "a3"}
+    \/ op.op \in {"set", "append", "setarm"} /\ op.arg \in {"1", "max", "e2", "b1", "1.5", "none"}
+    \/ op.op = "delitem" /\ op.i1 = 0
+
 Mutate(m) ==
     LET v == IF m = "a" THEN a ELSE b
         o == IF m = "a" THEN b ELSE a
     IN \E op \in OpsAt(Root, v, <<>>) :
-         \E r \in ApplyAt(Root, v, o, op.path, op) :
+         /\ (lvl <= ExhaustiveLevels \/ Cheap(op))
+         /\ \E r \in ApplyAt(Root, v, o, op.path, op) :
             /\ IF m = "a" THEN a' = r.v /\ b' = b ELSE b' = r.v /\ a' = a
             /\ tr' = [m |-> m, op |-> op, out |-> r.out]
 
@@ -374,12 +384,13 @@ Encode(m) ==
 MNext ==
     /\ lvl' = lvl + 1
     /\ UNCHANGED gid
-    /\ \E m \in {"a", "b"} : Mutate(m) \/ CopyFrom(m) \/ CopyFromWrongClass(m) \/ Encode(m)
+    /\ \E m \in {"a", "b"} : Mutate(m) \/ CopyFrom(m) \/ Encode(m)
+                             \/ (lvl <= ExhaustiveLevels /\ CopyFromWrongClass(m))
 
 MSpec == MInit /\ [][MNext]_mvars
 
 \* exhaustive exploration from every state below ExhaustiveLevels
-LevelBound == lvl <= ExhaustiveLevels
+LevelBound == lvl <= MaxLevel
 
 (* ---- properties ------------------------------------------------------------ *)
 RECURSIVE Valid(_, _)
